@@ -119,7 +119,8 @@ def report(pid, tier, seed, m, sel, res, findings, cmd, t0, outdir):
         for key in sel["functions"]:
             sites += sum(m["functions"][key].get("sites", {}).values())
     ob += sites
-    failed_ids = set((f["clause"] or (f["fn"], f["msg"])) for f in mine)
+    ob += len(sel.get("extra_obligations", []))
+    failed_ids = set((f["clause"] or f.get("cost_id") or (f["fn"], f["msg"])) for f in mine)
     discharged = ob - len(failed_ids)
     smt_ms = sum(v.get("time", 0) for k, v in fb.items())
     samples = []
@@ -136,6 +137,7 @@ def report(pid, tier, seed, m, sel, res, findings, cmd, t0, outdir):
         "repo_head": m.get("repo_head"),
         "rewrites_applied": sorted(set(r for k in selected for r in m["functions"][k].get("rewrites", []))),
         "functions_new_in_source_without_contract": m.get("without_record", []),
+        "generated_cost_obligations": [{"id": o["id"], "declared": o["declared"], "derived": o["derived"]} for o in sel.get("extra_obligations", [])][:80],
         "other_properties_failing_in_shared_functions": sorted(set(t for f in others for t in f["tags"])),
     }
     rc = 0
@@ -152,7 +154,7 @@ def report(pid, tier, seed, m, sel, res, findings, cmd, t0, outdir):
             fh.write("failed obligations (passed on the unchanged tree, fail on this tree):\n")
             for f in new_viol:
                 cl = m["clauses"].get(f["clause"]) if f["clause"] else None
-                fh.write("\n--- obligation: %s\n    function: %s\n    verifier: %s\n" % (f["clause"] or "(built-in safety obligation)", f["fn"], f["msg"]))
+                fh.write("\n--- obligation: %s\n    function: %s\n    verifier: %s\n" % (f["clause"] or f.get("cost_id") or "(built-in safety obligation)", f["fn"], f["msg"]))
                 if cl:
                     fh.write("    clause (%s, tags %s): %s\n" % (cl["origin"], ",".join(cl["tags"]), cl["text"]))
                 fn = m["functions"].get(f["fn"] or "")
@@ -162,7 +164,7 @@ def report(pid, tier, seed, m, sel, res, findings, cmd, t0, outdir):
             fh.write("\ncounterexample: none (Verus yields no model); no-failing-input-found\n")
         lines.append("VIOLATION property=%s replay=%s no-failing-input-found" % (pid, rpath))
         for f in new_viol[:40]:
-            lines.append("  failed obligation: %s in %s: %s" % (f["clause"] or "built-in", f["fn"], f["msg"]))
+            lines.append("  failed obligation: %s in %s: %s" % (f["clause"] or f.get("cost_id") or "built-in", f["fn"], f["msg"]))
     elif undecided or sel.get("undecided_functions"):
         rc = 2
         for key, why in sel.get("undecided_functions", []):
